@@ -146,6 +146,11 @@ class Normalizer:
         """Three-valued value of a test under the case facts (None when no facts are installed)."""
         if self.facts is None:
             return None
+        tr = getattr(self.facts, 'truth', None)
+        if tr:
+            tx = self.text(t)
+            if tx in tr:
+                return tr[tx]
         if isinstance(t, ast.UnaryOp) and isinstance(t.op, ast.Not):
             v = self.decide(t.operand)
             return None if v is None else not v
